@@ -1470,6 +1470,26 @@ func (w *world) exec1(line string) {
 		}
 		fmt.Fprintf(w.ann, "fscrlf %s %s\n", tok[1], hx(p))
 		fmt.Fprintln(w.out, "fscrlf ok")
+	case "goflag":
+		// goflag <name> <value>: the test binary was started with -<name>=<value>, a flag that the USER'S tests
+		// declare (the golden-file convention `-update`); nothing in the mode table reads it
+		if err := flag.Set(tok[1], tok[2]); err != nil {
+			panic(err)
+		}
+		fmt.Fprintln(w.ann, line)
+		fmt.Fprintln(w.out, "goflag ok")
+	case "fsdirs":
+		// fsdirs: the directories below the world's root (fsdump lists files only); implementation-only suites
+		var dirs []string
+		filepath.Walk(w.root, func(p string, info os.FileInfo, err error) error {
+			if err == nil && info.IsDir() && p != w.root {
+				dirs = append(dirs, hx(strings.TrimPrefix(p, w.root)))
+			}
+			return nil
+		})
+		sort.Strings(dirs)
+		fmt.Fprintln(w.ann, line)
+		fmt.Fprintln(w.out, "dirs "+strings.Join(dirs, ";"))
 	case "fsrm":
 		p := w.abs(unhx(tok[1]))
 		os.Remove(p)
@@ -1563,6 +1583,9 @@ func TestVerifHarness(t *testing.T) {
 		standaloneTestsRegistry = newStandaloneRegistry()
 		testEvents = newTestEvents()
 		skippedTests = newSyncSlice()
+		if f := flag.Lookup("update"); f != nil {
+			f.Value.Set("false")
+		}
 		fmt.Fprintf(w.ann, "caller %s\n", hx(callerFile))
 	}
 	for sc.Scan() {
@@ -1603,6 +1626,13 @@ func TestVerifHarness(t *testing.T) {
 	}
 }
 
+
+// a flag of the kind test suites declare for their golden files; go-snaps itself declares none
+func init() {
+	if flag.Lookup("update") == nil {
+		flag.Bool("update", false, "harness: stands for a golden-file flag declared by the user's tests")
+	}
+}
 
 // annW is the stream of lines handed to the model; it remembers the last line written
 type annW struct {
